@@ -52,6 +52,7 @@ def table(prog, I, gold, step):
             m = B.must(b)
             facts = {
                 'deps': frozenset(proj(B.deps(b))),
+                'raw': frozenset(B.deps(b)),
                 'src_colour': 'mover' if all(l in m for l in mover_lits(gold, i)) else
                               ('opponent' if all(l in m for l in mover_lits(not gold, i)) else '?'),
                 'empties': frozenset(v[1] for (v, p) in m if v[0] == 'all' and not p),
@@ -61,11 +62,21 @@ def table(prog, I, gold, step):
     return out
 
 
-def map_facts(f, sqmap):
+def map_facts(f, sqmap, raw=False):
     if f is None:
         return None
-    return {'deps': frozenset((sqmap(s), k) for (s, k) in f['deps']), 'src_colour': f['src_colour'],
-            'empties': frozenset(sqmap(s) for s in f['empties']), 'not_rabbit': f['not_rabbit']}
+    out = {'deps': frozenset((sqmap(s), k) for (s, k) in f['deps']), 'src_colour': f['src_colour'],
+           'empties': frozenset(sqmap(s) for s in f['empties']), 'not_rabbit': f['not_rabbit']}
+    if raw:
+        # within one side the code is compared with itself, so the exact variable sets must correspond
+        out['raw'] = frozenset((n, sqmap(s)) for (n, s) in f['raw'])
+    return out
+
+
+def strip_raw(f):
+    if f is None:
+        return None
+    return {k: v for k, v in f.items() if k != 'raw'}
 
 
 def check_equivariance(ctx, prog, I):
@@ -81,7 +92,7 @@ def check_equivariance(ctx, prog, I):
         bad = None
         for (kind, d, i), f in T.items():
             g = T.get((kind, MIRROR_DIR[d], G.mirror_file(i)), 'missing')
-            if g == 'missing' or map_facts(f, G.mirror_file) != g:
+            if g == 'missing' or map_facts(f, G.mirror_file, raw=True) != g:
                 bad = (kind, d, i)
                 break
         ctx.ob('[%s step %d] table invariant under file mirror (%d entries)' % ('gold' if gold else 'silver', step, len(T)), bad is None,
@@ -94,7 +105,7 @@ def check_equivariance(ctx, prog, I):
         bad = None
         for (kind, d, i), f in T.items():
             g = T2.get((kind, FLIP_DIR[d], G.flip_rank(i)), 'missing')
-            if g == 'missing' or map_facts(f, G.flip_rank) != g:
+            if g == 'missing' or map_facts(f, G.flip_rank) != strip_raw(g):
                 bad = (kind, d, i)
                 break
         ctx.ob('[%s step %d] table maps onto the other side\'s under colour swap + rank flip' % ('gold' if gold else 'silver', step),
